@@ -81,7 +81,10 @@ func (a *sessionAwareAdapter) cleaner() {
 		for i := len(a.packets) - 1; i >= 0; i-- {
 			packet := a.packets[i]
 			if packet.HasExpired(a.maxDisconnectDuration) {
-				a.packets = append(a.packets[:i], a.packets[i+1:]...)
+				// Packets are in the order of emission: this is the newest expired packet. Remove it together with
+				// every packet before it. Removing it alone would leave a hole in the log: a session whose
+				// offset names an older packet would be recovered without this packet.
+				a.packets = append([]*PersistedPacket(nil), a.packets[i+1:]...)
 				break
 			}
 		}
